@@ -245,6 +245,22 @@ def _fasthash(v, depth=0):
     return hash(repr(v))
 
 
+def clear_function_caches():
+    """functools.lru_cache / cache wrappers found in iodata modules are scratch state as well."""
+    n = 0
+    for m in _iodata_modules():
+        for val in list(vars(m).values()):
+            cc = getattr(val, "cache_clear", None)
+            if callable(cc) and hasattr(val, "cache_info"):
+                try:
+                    if val.cache_info().currsize:
+                        n += 1
+                    cc()
+                except Exception:  # noqa: BLE001
+                    pass
+    return n
+
+
 class TableGuard:
     """Snapshot and in-place restore of all mutable module tables (so runs cannot leak)."""
 
@@ -337,6 +353,7 @@ class TableGuard:
         return bool(self.changed()) and not self.changed(tables_only=True)
 
     def restore(self):
+        clear_function_caches()
         for _k, (live, saved) in self.snap.items():
             if isinstance(live, dict):
                 live.clear()
